@@ -3,6 +3,7 @@ package main
 // Built-in models of a few library functions, and the write-set analysis of calls inside loops.
 
 import (
+	"go/token"
 	"go/ast"
 	"go/types"
 	"strings"
@@ -221,7 +222,13 @@ func (v *Verifier) markCallWrites(ms *loopModSet, call *ast.CallExpr) {
 		}
 	}
 	if fn == nil {
-		// call of a local function literal variable: its body is in this function; be conservative
+		// call of a local variable holding a function literal that is defined inside the
+		// region being analysed: the walker inspects the literal's body itself
+		if id, ok := ast.Unparen(call.Fun).(*ast.Ident); ok && ms.region != nil {
+			if obj := v.info.ObjectOf(id); obj != nil && obj.Pos() >= ms.region.Pos() && obj.Pos() < ms.region.End() && v.definedByFuncLit(ms.region, obj) {
+				return
+			}
+		}
 		ms.heapAll = true
 		return
 	}
@@ -408,4 +415,29 @@ func (v *Verifier) modelConcat(s *State, call *ast.CallExpr) []*Term {
 	cp := v.fresh("cap", SInt)
 	s.assume(And(Ge(cp, total), Le(cp, IntLitB(maxLen))))
 	return []*Term{Ite(Eq(total, IntLit(0)), NilSlice, MkSlice(nb, IntLit(0), total, cp))}
+}
+
+// definedByFuncLit: obj is declared in region by `obj := func(...) {...}` and never reassigned there.
+func (v *Verifier) definedByFuncLit(region ast.Node, obj types.Object) bool {
+	defs, assigns := 0, 0
+	ast.Inspect(region, func(n ast.Node) bool {
+		as, ok := n.(*ast.AssignStmt)
+		if !ok {
+			return true
+		}
+		for i, l := range as.Lhs {
+			id, ok := ast.Unparen(l).(*ast.Ident)
+			if !ok || v.info.ObjectOf(id) != obj {
+				continue
+			}
+			assigns++
+			if as.Tok == token.DEFINE && i < len(as.Rhs) && len(as.Lhs) == len(as.Rhs) {
+				if _, isLit := ast.Unparen(as.Rhs[i]).(*ast.FuncLit); isLit {
+					defs++
+				}
+			}
+		}
+		return true
+	})
+	return defs == 1 && assigns == 1
 }
